@@ -3,6 +3,9 @@
 #  * tie 1 (bytes): real _MIR_get_thunk/_MIR_redirect_thunk/_MIR_get_thunk_addr vs the extracted model,
 #    at the +-2 GiB boundaries and on random targets; both encodings are also *executed*
 #  * tie 2 (state machine): random load/link/set-interface/MIR_gen/call histories on the real API vs the model
+#  * tie 3 (argument locations): which register / stack slot every eightbyte of every argument travels in, for the
+#    interpreter's two ends (_MIR_get_ff_call, shim + va_block_arg_builtin) and generated code's two ends, vs the
+#    three walkers proved equal in coq/C03/ArgPassProofs.v (checks/c03_argpass.py, harness/c03_argpass.c)
 #  * differential run (harness/c03_ifaces.c): generated multi-module programs under the five interfaces
 import os, sys, json, hashlib
 import vlib
@@ -464,6 +467,10 @@ def run(chk):
             chk.finding('hist-dbg:' + hashlib.sha1(line.encode()).hexdigest()[:12],
                         dict(kind='hist', variant='dbg', n=n, callees=cs, ops=ops, what=why),
                         'assert-enabled build: history accepted by the model fails: %s  [%s]' % (why, line))
+    # tie 3 (round 3): argument locations at calls through public addresses vs coq/C03/ArgPass.v
+    from checks import c03_argpass
+    if c03_argpass.run(chk, model):
+        found = True
     # differential run over the five interfaces
     try:
         from checks import c03_ifaces
@@ -498,5 +505,8 @@ def replay(chk, path):
         print('history: H %d | %s | %s' % (rp['n'], rp['callees'], ' ; '.join(rp['ops'])))
         print('result:', r or 'agree')
         return 1 if r else 0
+    if rp.get('kind') == 'argpass':
+        from checks import c03_argpass
+        return c03_argpass.replay(chk, rp, model)
     from checks import c03_ifaces
     return c03_ifaces.replay(chk, rp)
